@@ -57,7 +57,7 @@ def c15_case(draw, max_jobs: int = 8):
     return {"jobs": jobs, "fail_at": fail_at, "workers": draw(st.integers(1, 4)),
             "switch": draw(st.sampled_from([1e-6, 1e-5, 1e-4, 5e-3])),
             "fail_kind": draw(st.sampled_from(["divide", "yaml_missing", "value_empty", "cfg_not_nodes", "assert_empty", "yaml_invalid", "runtime", "divide"])),
-            "enqueue_stall_ms": draw(st.sampled_from([0, 0, 0, 400]))}
+            "enqueue_stall_ms": draw(st.sampled_from([0, 0, 0, 400])), "yaml_reuse": draw(st.sampled_from([False, True]))}
 
 
 def job_config(k: int, job: Dict[str, Any], failing: bool, fail_kind: str = "divide") -> List[Dict[str, Any]]:
@@ -157,6 +157,16 @@ def run_batch(case: Dict[str, Any]) -> Dict[str, Any]:
     threads: List[threading.Thread] = []
     out: Dict[str, Any] = {}
     jobdir = tempfile.mkdtemp(prefix="c15-jobs-", dir=".")
+    started_flag, shared_yaml, reused = [False], [None], [0]
+
+    def _wait(f, seconds: float) -> bool:
+        t_end = time.time() + seconds
+        while time.time() < t_end:
+            if f.done():
+                return True
+            time.sleep(0.01)
+        return f.done()
+
     try:
         def enqueue(k: int) -> None:
             job = case["jobs"][k]
@@ -184,6 +194,12 @@ def run_batch(case: Dict[str, Any]) -> Dict[str, Any]:
                 return
             if form == "yaml":
                 handed = os.path.join(jobdir, f"job{k}.yaml")
+                if case.get("yaml_reuse") and started_flag[0]:
+                    # the same file name is reused for another pipeline once the earlier job that used it is done
+                    prev = shared_yaml[0]
+                    if prev is None or prev.done() or _wait(prev, 20.0):
+                        handed = os.path.join(jobdir, "shared.yaml")
+                        reused[0] += 1
                 with open(handed, "w") as fh:
                     yaml.safe_dump({"pipeline": {"nodes": copy.deepcopy(cfg)}}, fh)
             elif form == "pipeline":
@@ -195,6 +211,8 @@ def run_batch(case: Dict[str, Any]) -> Dict[str, Any]:
             except Exception as exc:  # noqa: BLE001
                 expected.append({"ok": False, "exc": type(exc).__name__})
             fut = master.enqueue(handed, data=data, context=ContextType(dict(ctx)), return_future=True)
+            if isinstance(handed, str) and handed.endswith("shared.yaml"):
+                shared_yaml[0] = fut
             job_ids.append(k)  # resolved to the job id after the batch (the cfg publication carries tag -> id)
             futures.append(fut)
 
@@ -206,6 +224,7 @@ def run_batch(case: Dict[str, Any]) -> Dict[str, Any]:
         mt = threading.Thread(target=master.run_forever, daemon=True)
         threads.append(mt)
         mt.start()
+        started_flag[0] = True
         for w in range(case["workers"]):
             t = threading.Thread(target=worker_loop, args=(w, transport, executor, stop, logger, 0.01), daemon=True)
             threads.append(t)
@@ -249,7 +268,7 @@ def run_batch(case: Dict[str, Any]) -> Dict[str, Any]:
                 quiescent = True
                 break
             time.sleep(0.02)
-        out.update(order=early + late, done=[f.done() for f in futures], quiescent=quiescent, waited=time.time() - t0, master_alive=mt.is_alive(),
+        out.update(yaml_paths_reused=reused[0], order=early + late, done=[f.done() for f in futures], quiescent=quiescent, waited=time.time() - t0, master_alive=mt.is_alive(),
                    status_pubs=list(status_pubs), job_ids=[cfg_ids.get(k) for k in job_ids], expected=expected)
         results = []
         for f in futures:
@@ -278,6 +297,8 @@ def check_case(case: Dict[str, Any], col: Collector) -> None:
     labs = ["jobs:%d" % min(n, 9), "workers:%d" % case["workers"], "switch:%g" % case["switch"]] + (["burst_with_background_traffic"] if case.get("noise") else [])
     if case.get("enqueue_stall_ms"):
         labs.append("enqueue_stalled")
+    if r.get("yaml_paths_reused", 0) >= 2:
+        labs.append("yaml_path_reused_for_another_pipeline")
     if case["fail_at"] is not None:
         labs.append("failing_job")
         labs.append("fail_kind:" + case.get("fail_kind", "divide"))
@@ -393,4 +414,4 @@ def shrink_candidates(case):
 
 
 def label_requirements(tier: str) -> Dict[str, Any]:
-    return {"failing_job": 0.2, "enqueue_stalled": 3, "fail_kind:value_empty": 1, "fail_kind:yaml_missing": 1, "fail_kind:cfg_not_nodes": 1, "form:yaml": 5, "form:pipeline": 5, "workers:1": 1, "workers:4": 1, "payload:collection:empty": 2, "payload:none": 3}
+    return {"failing_job": 0.2, "enqueue_stalled": 3, "fail_kind:value_empty": 1, "fail_kind:yaml_missing": 1, "fail_kind:cfg_not_nodes": 1, "form:yaml": 5, "form:pipeline": 5, "yaml_path_reused_for_another_pipeline": 2, "workers:1": 1, "workers:4": 1, "payload:collection:empty": 2, "payload:none": 3}
